@@ -465,7 +465,15 @@ def rule_amount_precision(ctx: Ctx, rep: Report) -> None:
     rep.floor(rule, 1)
 
 
+def rule_ctor_copies_containers_(ctx: Ctx, rep: Report) -> None:
+    """C18.ctor_copies_containers: a constructor stores its own copy of a sequence / mapping argument (see sigcommon.rule_ctor_copies_containers)."""
+    from rules.sigcommon import rule_ctor_copies_containers
+    rule_ctor_copies_containers(ctx, rep, "C18.ctor_copies_containers", ('btclib.psbt', 'btclib.tx', 'btclib.script'), 15)
+
+
 RULES = [
+    ("C18.ctor_copies_containers", rule_ctor_copies_containers_),
+
     ("C18.multisig_m", rule_multisig_m),
     ("C18.amount_precision", rule_amount_precision),
     ("C18.no_stale_cache", rule_no_stale_cache_),
